@@ -135,6 +135,40 @@ def check_graph(desc: dict[str, Any], col: common.Collector, nodes_per_graph: in
     # twice in one process / second builder instance
     if key_of(g) != k0:
         col.violation("C18:key-not-repeatable", "computing the key twice gives two keys", wit0)
+    # history: derive a node from one whose key (and hash) has ALREADY been computed -- the
+    # derived node must not inherit anything cached on the original
+    import pytato as pt
+    from vf.vtags import VTag
+    hrng = common.rng_for(desc["seed"], "c18-history")
+    arrs = [n for n in reflect.walk(g) if isinstance(n, pt.Array)
+            and not isinstance(n, pt.NamedArray)]
+    for n in hrng.sample(arrs, min(3, len(arrs))):
+        try:
+            kn = key_of(n)
+            hash(n)
+            col.count("mon.history_oracle")
+            fresh = reflect.clone_node(n).tagged(VTag(4242))     # never keyed before tagging
+            t = n.tagged(VTag(4242))
+            kt, kf = key_of(t), key_of(fresh)
+            wit = {**wit0, "node_kind": type(n).__name__}
+            if kt == kn:
+                col.violation("C18:key-collision:tag-added-after-keying",
+                              f"a {type(n).__name__} tagged AFTER its key was computed has the "
+                              "key of the untagged node", wit)
+            elif kt != kf:
+                col.violation("C18:key-depends-on-history",
+                              "tagging after keying and keying after tagging give different "
+                              "keys for equal nodes", wit)
+            if t != fresh or hash(t) != hash(fresh):
+                col.violation("C18:hash-depends-on-history",
+                              "equal tagged nodes hash / compare differently depending on "
+                              "whether the untagged node had been hashed", wit)
+            u = t.without_tags(VTag(4242))
+            if key_of(u) != kn:
+                col.violation("C18:key-depends-on-history",
+                              "removing the tag again does not restore the key", wit)
+        except Exception as e:  # noqa: BLE001
+            col.histo("history_oracle_unavailable", type(e).__name__)
     # mutants
     rng = common.rng_for(desc["seed"], "c18-nodes")
     nodes = reflect.walk(g)
